@@ -530,7 +530,7 @@ async fn h2_client(plan: FPlan, authority: String, peer: PeerConn, obs: Shared<O
     let mut b = http::Request::builder()
         .method(plan.method.as_str())
         .uri(format!("http://{}{}", authority, plan.path))
-        .header("proxy-authorization", basic_auth("u0", "p0"));
+        .header("proxy-authorization", basic_auth("u0", "p0-secret-password"));
     for (k, v) in &plan.req_headers {
         b = b.header(k.as_str(), v.as_str());
     }
@@ -618,7 +618,7 @@ async fn h2_client(plan: FPlan, authority: String, peer: PeerConn, obs: Shared<O
 
 async fn h1_client(plan: FPlan, authority: String, peer: PeerConn, obs: Shared<Obs>) {
     let mut head = format!("{} http://{}{} HTTP/1.1\r\nHost: {}\r\n", plan.method, authority, plan.path, authority);
-    head.push_str(&format!("Proxy-Authorization: {}\r\n", basic_auth("u0", "p0")));
+    head.push_str(&format!("Proxy-Authorization: {}\r\n", basic_auth("u0", "p0-secret-password")));
     for (k, v) in &plan.req_headers {
         head.push_str(&format!("{}: {}\r\n", k, v));
     }
